@@ -301,7 +301,7 @@ def run_all(_chunk=None):
                     samples.append({"case": label, "expr": es, "dependencies": sorted(map(str, got))})
                 # ---- soundness by perturbation (only meaningful when the expression evaluates)
                 v0 = value_of(e)
-                if isinstance(e, refs.MutableRef) or "container" in fname:
+                if isinstance(e, refs.Ref) or "container" in fname:
                     # a top-level container is by design not a dependency (only exactness applies)
                     continue
                 try:
@@ -347,6 +347,12 @@ def run_all(_chunk=None):
                     if set(task.dependencies) != got:
                         report(f"the task defined by the expression registers dependencies {sorted(map(str, task.dependencies))}, "
                                f"the expression reports {sorted(map(str, got))}: {label}", es)
+                    # ... and keeps carrying them whatever a CLONE of the manager does with its copy of the definition
+                    c = m.clone()
+                    c.unregister(s["n"]["out"])
+                    if set(m.tasks[s["n"]["out"]].dependencies) != got or e._get_dependencies() != got:
+                        report(f"after a clone of the manager dropped the definition, the original task registers "
+                               f"{sorted(map(str, m.tasks[s['n']['out']].dependencies))}, the expression reports {sorted(map(str, got))}: {label}", es)
                     m.unregister(s["n"]["out"])
                     del data["n"]["out"]
                 except Exception:  # noqa  (unevaluable expression: nothing to register)
